@@ -174,7 +174,7 @@ func (u *Unit) heapCur(st *State, name string) string {
 	if strings.HasPrefix(name, "$defer:") || strings.HasPrefix(name, "$called:") {
 		return "false"
 	}
-	if strings.HasPrefix(name, "$count:") || strings.HasPrefix(name, "$cnttrue:") {
+	if strings.HasPrefix(name, "$count:") || strings.HasPrefix(name, "$cnttrue:") || strings.HasPrefix(name, "$cntnil:") {
 		return "0"
 	}
 	srt, ok := u.heapSort[name]
@@ -286,7 +286,7 @@ func (u *Unit) havocAll(st *State) {
 	// keep ghost call flags (they only record history)
 	keep := map[string]string{}
 	for k, v := range st.heaps {
-		if strings.HasPrefix(k, "$called:") || strings.HasPrefix(k, "$ret:") || strings.HasPrefix(k, "$first:") || strings.HasPrefix(k, "$count:") || strings.HasPrefix(k, "$cnttrue:") || strings.HasPrefix(k, "$defer:") || strings.HasPrefix(k, "$visited:") || strings.HasPrefix(k, "L$") {
+		if strings.HasPrefix(k, "$called:") || strings.HasPrefix(k, "$ret:") || strings.HasPrefix(k, "$first:") || strings.HasPrefix(k, "$count:") || strings.HasPrefix(k, "$cnttrue:") || strings.HasPrefix(k, "$cntnil:") || strings.HasPrefix(k, "$defer:") || strings.HasPrefix(k, "$visited:") || strings.HasPrefix(k, "L$") {
 			keep[k] = v
 		}
 	}
